@@ -84,6 +84,9 @@ def first_bytes(cls, ser, rng):
     if cls in types:
         # a message of another type, carrying either a call or a perfectly valid handshake payload
         return L.patch(inv if rng.random() < 0.5 else valid, 6, "!B", types[cls])
+    if cls == "type_partial":
+        whole = L.patch(inv, 6, "!B", rng.choice([protocol.MSG_INVOKE, protocol.MSG_PING, protocol.MSG_RESULT]))
+        return whole[:rng.choice([40, 41, len(whole) - 1, (40 + len(whole)) // 2])]
     if cls == "garbage":
         return bytes(rng.randrange(256) for _ in range(rng.choice([40, 60, 200])))
     if cls == "short_foreign":
@@ -169,15 +172,18 @@ def run_scenarios(scens, servertype, timeout, seed, validator_install="class"):
             rc = lab.raw()
             lab.log.append({"e": "First", "c": rc.cid, "accept": scen["accept"], "mustreason": scen["mustreason"]})
             data = first_bytes(scen["first"], ser, rng)
-            for i, it in enumerate(scen["pipe"]):
+            for i, it in enumerate(scen["pipe"] if scen["first"] != "type_partial" else []):
                 data += pipe_bytes(it, ser, 10 + i)
             rc.send(data)
             if scen["first"] in ("truncated", "empty"):
                 rc.close()          # a message cut short by a disconnect
+            if scen["first"] == "type_partial":
+                import socket as _socket
+                rc.sock.shutdown(_socket.SHUT_WR)       # nothing more will come; the peer still listens
             hang = False
             try:
                 sc.quiesce()
-                if not (scen["first"] == "short_foreign" and not scen["pipe"]):
+                if not (scen["first"] == "short_foreign" and not scen["pipe"]) and scen["first"] != "type_partial":
                     # whatever the peer sends next (if it can still send) must not be executed either
                     # (a peer that has sent less than a header of something else just waits: it must be turned away as it is)
                     rc.send(pipe_bytes("invoke_target", ser, 50) + pipe_bytes("invoke_daemon", ser, 51))
